@@ -354,7 +354,7 @@ class Gen:
 
     def pipe(self, depth, loops, infunc, ncalls):
         r = self.rng
-        if r.random() < 0.15:
+        if r.random() < 0.15 and "nobang" not in self.feats:
             self.in_bang += 1
             c = self.cmd(depth, loops, infunc, [f for f in ncalls if not self.func_opts.get(f)])
             self.in_bang -= 1
